@@ -121,6 +121,14 @@ fn c16_corpus(tier: Tier) -> Vec<(String, Spec)> {
     v.push(("kw_icase".into(), Spec::new(true, vec![vcore::spec::Pat::regex("select|from|where").icase(), vcore::spec::Pat::regex("[a-z]+").prio(1)])));
     v.push(("kw_sub1".into(), Spec::new(true, vec![vcore::spec::Pat::regex("(?&d)+x")]).with_sub("d", "[0-9]")));
     v.push(("kw_sub2".into(), Spec::new(true, vec![vcore::spec::Pat::regex("(?&d)+x")]).with_sub("d", "[0-7]")));
+    // the same regex text over subpatterns of different weight (priority) and different case handling
+    v.push(("kw_sub3".into(), Spec::new(true, vec![vcore::spec::Pat::regex("(?&d)+x"), vcore::spec::Pat::token("abcx")]).with_sub("d", "abc")));
+    v.push(("kw_sub4".into(), Spec::new(true, vec![vcore::spec::Pat::regex("(?&d)+x").icase(), vcore::spec::Pat::token("abcx").prio(1)]).with_sub("d", "abc")));
+    v.push(("kw_tok_plain".into(), Spec::new(true, vec![vcore::spec::Pat::token("select"), vcore::spec::Pat::regex("[a-zA-Z]+").prio(1)])));
+    v.push(("kw_tok_icase".into(), Spec::new(true, vec![vcore::spec::Pat::token("select").icase(), vcore::spec::Pat::regex("[a-zA-Z]+").prio(1)])));
+    v.push(("kw_skip_plain".into(), Spec::new(true, vec![vcore::spec::Pat::skip("rem"), vcore::spec::Pat::regex("[a-zA-Z]+").prio(1)])));
+    v.push(("kw_skip_icase".into(), Spec::new(true, vec![vcore::spec::Pat::skip("rem").icase(), vcore::spec::Pat::regex("[a-zA-Z]+").prio(1)])));
+    v.push(("kw_bytes_plain".into(), Spec::new(false, vec![vcore::spec::Pat::regex("select|from|where"), vcore::spec::Pat::regex("[a-z]+").prio(1)])));
     if tier == Tier::Thorough {
         // one representative per distinct graph shape of the quick family
         let fam = vcore::enumerate::family(Tier::Quick);
@@ -462,6 +470,8 @@ pub fn c18_skip_cases() -> Vec<(String, Vec<String>)> {
         vec!["skip(\"x\", priority = 3)", "skip(\"[xy]\", priority = 1)", "skip(\"x|y\", priority = 2)", "utf8 = false"],
         vec!["skip \"a\"", "skip \"b\"", "skip(\"[ab]c\")", "error = E"],
         vec!["skip(\"k\", ignore(case))", "skip(\"K\", priority = 9)", "subpattern d = \"[0-9]\"", "skip(\"(?&d)+\")"],
+        vec!["skip(\"rem[a-z]\", ignore(case))", "skip(\"#[a-z]\")", "skip \" +\"", "skip(\"Q\", priority = 8)"],
+        vec!["skip(\"[0-9]x\", ignore(case), priority = 3)", "skip(\"0[a-z]\", priority = 1)", "extras = u8", "skip(\"é\", callback = |_| Skip)"],
         vec!["subpattern d = b\"[\\x80-\\xFF]\"", "utf8 = false", "skip(\"(?&d)+\")", "extras = u8"],
         vec!["utf8 = false", "subpattern d = \"(?-u:\\xff)\"", "error = E", "skip(\"x(?&d)\")"],
     ];
@@ -559,6 +569,99 @@ pub fn c18(a: &Args) -> Report {
         }
         rep.violations.extend(v);
     }
+    rep
+}
+
+// ------------------------------------------------------------------------------------ C08 (attribute level)
+
+/// Equal-priority overlaps written in ways the pattern-level family cannot express: two attributes
+/// on ONE variant, a skip next to a variant, two skips - with every combination of callbacks and
+/// explicit priorities. The two patterns are either the same text (they overlap on everything) or
+/// disjoint by construction, so the expected verdict needs no automaton:
+/// conflict <=> same text and equal effective priority.
+pub fn c08(a: &Args) -> Report {
+    let mut rep = Report::new(&a.prop, "vgraph c08 (attribute-level ties)", &a.tier_name);
+    rep.bounds.insert("rule".into(), "pairs of definitions (same text, or disjoint texts) x 5 callbacks each x 6 priority assignments x 5 placements (two attributes on one variant, two variants, skip + variant, two skip items, skip + skip in one attribute) x with/without ignore(case): the derive must report an ambiguity iff the texts are equal and the effective priorities are equal - whatever the callbacks. Non-trivial = the two definitions overlap.".into());
+    let texts: [(&str, &str, &str); 4] = [("regex", "[0-9]+", "[a-z]+"), ("token", "if", "while"), ("regex", "a|b", "c|d"), ("token", "é", "ü")];
+    let cbs = ["", ", |_| 1", ", |_| 2", ", cb_one", ", callback = cb_two"];
+    // (explicit priority of the first, of the second); None = default (equal for equal texts)
+    let prios: [(Option<u32>, Option<u32>); 6] = [(None, None), (Some(7), Some(7)), (Some(7), Some(8)), (Some(7), None), (None, Some(7)), (Some(1), Some(1))];
+    let mut cases: Vec<(String, bool, bool)> = vec![];
+    for (kind, t1, t_other) in texts {
+        for same in [true, false] {
+            let t2 = if same { t1 } else { t_other };
+            for c1 in cbs {
+                for c2 in cbs {
+                    for (p1, p2) in prios {
+                        for icase in [false, true] {
+                            let arg = |t: &str, c: &str, p: Option<u32>| format!("\"{t}\"{c}{}{}", p.map(|p| format!(", priority = {p}")).unwrap_or_default(), if icase { ", ignore(case)" } else { "" });
+                            let (a1, a2) = (arg(t1, c1, p1), arg(t2, c2, p2));
+                            let conflict = same && p1 == p2;
+                            let sk = |x: &str| if kind == "token" { x.replace('|', "\\|") } else { x.to_string() };
+                            let _ = sk;
+                            let srcs = [
+                                format!("enum T {{ #[{kind}({a1})] #[{kind}({a2})] A(u64), #[token(\"zz\")] Z }}"),
+                                format!("enum T {{ #[{kind}({a1})] A(u64), #[token(\"zz\")] Z, #[{kind}({a2})] B(u64) }}"),
+                                format!("#[logos(skip({a1}))] enum T {{ #[token(\"zz\")] Z, #[{kind}({a2})] B(u64) }}"),
+                                format!("#[logos(skip({a1}))] #[logos(skip({a2}))] enum T {{ #[token(\"zz\")] Z }}"),
+                                format!("#[logos(skip({a1}), skip({a2}))] enum T {{ #[token(\"zz\")] Z }}"),
+                            ];
+                            for (k, src) in srcs.into_iter().enumerate() {
+                                // a skip literal is a regex: only the regex texts are used for skip placements
+                                if k >= 2 && kind == "token" && !same {
+                                    continue;
+                                }
+                                // a skip is a regex (priority by complexity), a token counts bytes: the
+                                // defaults coincide only for ASCII texts
+                                if k == 2 && kind == "token" && !t1.is_ascii() && p1.is_none() && p2.is_none() {
+                                    continue;
+                                }
+                                cases.push((src, conflict, same));
+                            }
+                        }
+                    }
+                }
+            }
+        }
+    }
+    let outs: Vec<Option<Violation>> = cases
+        .par_iter()
+        .map(|(src, conflict, _)| {
+            let g = vdrive::generate(src, false);
+            if let Some(p) = &g.observed.panicked {
+                return Some(viol("PANIC", "c08", src.clone(), format!("generate panicked: {p}"), json!({"src": src})));
+            }
+            let reported = g.observed.errors.iter().any(|e| e.contains("can match simultaneously"));
+            let other: Vec<&String> = g.observed.errors.iter().filter(|e| !e.contains("can match simultaneously") && !e.contains("priority")).collect();
+            if !other.is_empty() && !reported {
+                // rejected for an unrelated reason: outside the domain of this family (must not happen; reported so that the family stays meaningful)
+                return Some(viol("CONFLICT-SPURIOUS", "c08", src.clone(), format!("well-formed definition rejected: {:?}", other), json!({"src": src, "expect": conflict})));
+            }
+            if *conflict && !reported {
+                Some(viol("CONFLICT-MISSED", "c08", src.clone(), "two definitions with the same text and the same priority, but no ambiguity is reported".into(), json!({"src": src, "expect": true})))
+            } else if !*conflict && reported {
+                Some(viol("CONFLICT-SPURIOUS", "c08", src.clone(), format!("an ambiguity is reported although the definitions have different priorities or disjoint texts: {:?}", g.observed.errors.first()), json!({"src": src, "expect": false})))
+            } else {
+                None
+            }
+        })
+        .collect();
+    for ((_, conflict, same), o) in cases.iter().zip(outs) {
+        rep.count("evaluations", 1);
+        rep.count("programs", 1);
+        if *same {
+            rep.count("distinct_nontrivial", 1);
+        }
+        if *conflict {
+            rep.count("expected_conflicts", 1);
+        }
+        if let Some(v) = o {
+            if rep.violations.len() < 12 {
+                rep.violations.push(v);
+            }
+        }
+    }
+    rep.samples.push(json!({"source": cases[7].0, "expect_conflict": cases[7].1}));
     rep
 }
 
@@ -818,6 +921,15 @@ pub fn replay(a: &Args, rec: &serde_json::Value) -> Report {
             };
             if differs {
                 rep.violations.push(viol(tag, "c16", spec.short(), "output depends on iteration order".into(), json!({})));
+            }
+        }
+        "c08" => {
+            let src = r["src"].as_str().unwrap_or("").to_string();
+            let expect = r["expect"].as_bool().unwrap_or(false);
+            let g = vdrive::generate(&src, false);
+            let reported = g.observed.errors.iter().any(|e| e.contains("can match simultaneously"));
+            if g.observed.panicked.is_some() || reported != expect {
+                rep.violations.push(viol(tag, "c08", src, "reproduced".into(), json!({})));
             }
         }
         "c18" => {
